@@ -237,6 +237,24 @@ pub fn gen_c16(rng: &mut Rng, thorough: bool, emit: &mut dyn FnMut(NegotCase)) {
             emit(NegotCase { header: Some(h.clone().into_bytes()), ast: Some(l), more: vec![], class: format!("G:empty-elements {:?}", h) });
         }
     }
+    // every pair of adjacent three-digit weights, gzip one thousandth below identity and the other way round
+    // (a weight read through a float lands on the wrong side for a handful of them)
+    for k in 1..1000u32 {
+        let w3 = |v: u32| Weight::Zero(vec![(v / 100) as u8, (v / 10 % 10) as u8, (v % 10) as u8], true);
+        for (gz, id) in [(k - 1, k), (k, k - 1)] {
+            for star in [false, true] {
+                if star && k % 7 != 0 {
+                    continue;
+                }
+                let l = vec![
+                    Elem { pre: "".into(), coding: "gzip".into(), w: Some(("".into(), "".into(), w3(gz))), post: "".into() },
+                    Elem { pre: " ".into(), coding: if star { "*".into() } else { "identity".into() }, w: Some(("".into(), "".into(), w3(id))), post: "".into() },
+                ];
+                let h = render_list(&l);
+                emit(NegotCase { header: Some(h.clone().into_bytes()), ast: Some(l), more: vec![], class: format!("G:adjacent-weights {:?}", h) });
+            }
+        }
+    }
     // near misses and arbitrary bytes: no-panic clause, compared with the model
     for h in [
         "gzip;q=0.+5", "gzip;q=0.0000", "gzip;q=1.001", "gzip;q=2", "gzip;q=", "gzip;q", "gzip;", ";q=1", ",", ",,", "gzip,", ",gzip",
